@@ -159,3 +159,13 @@ Definition moutcome_eqb (a b : moutcome) : bool :=
 
 Definition agree_map (w : ver) (d ops : dict) (o : moutcome) : bool :=
   moutcome_eqb (run_map utf8_enc utf8_dec w d ops) o.
+
+(* ------------------------------------------------------------------ a ReferencedData as a whole *)
+(* The int32 values and the value map of the data type are stored side by side ('Data' dataset / 'Value map' dataset of
+   the type).  Neither the writer nor the reader looks one up in the other: a value without a key in the map is stored and
+   returned as it is, no label is made up for it and no key is added. *)
+Definition run_ref (w : ver) (d ops : dict) (a : assoc) (n : nat) (x : arr) : moutcome * outcome :=
+  (run_map utf8_enc utf8_dec w d ops, run_num w CReferenced a n x).
+
+Definition agree_ref (w : ver) (d ops : dict) (a : assoc) (n : nat) (x : arr) (mo : moutcome) (no : outcome) : bool :=
+  moutcome_eqb (fst (run_ref w d ops a n x)) mo && outcome_eqb (snd (run_ref w d ops a n x)) no.
